@@ -100,7 +100,8 @@ def main():
             text += " array_dcg / fixed_dcg are re-translated statement by statement on every run (translate/py2lean_np.py → LK/Generated/NpC06.lean) and proved equal to the model's arrayDcg / fixedDcg."
         if pid == "C08":
             text += (" BiasModel.learn's NumPy code is re-translated statement by statement on every run (translate/py2lean_np.py → LK/Generated/NpC08.lean) and proved equal to the accumulation model "
-                     "(biasLearn_eq_model), which is proved equal to the documented damped means.")
+                     "(biasLearn_eq_model), which is proved equal to the documented damped means; BiasModel.compute_for_items is translated with all its branches (translate/py2lean_imp.py → LK/Generated/ImpC08.lean) "
+                     "and proved to assemble global + item + user offset with the documented precedence (computeForItems_spec, assembled_is_score, histBias_is_model).")
             tech += " + per-run translation of BiasModel.learn proved equal to the model"
         if pid == "C04":
             text += (" The array statements of __call__ of PopScorer, HPFScorer, FunkSVDScorer, ALSBase and BiasedSVDScorer are re-translated on every run (translate/py2lean_scatter.py → LK/Generated/ScatterC04.lean, "
